@@ -198,8 +198,12 @@ Error ConstPool::add(const void* data, size_t size, Out<size_t> offset_out) noex
         continue;
       }
 
+      // Shared constants are only an optimization - the constant itself has already been added, so if there is
+      // no memory to register a shared part it's simply not registered.
       node = ConstPool::Tree::new_node_t(_arena, data_ptr, smaller_size, offset + (i * smaller_size), true);
-      _tree[tree_index].insert(node);
+      if (ASMJIT_LIKELY(node)) {
+        _tree[tree_index].insert(node);
+      }
     }
   }
 
